@@ -21,6 +21,10 @@ def scenarios(tier):
     sc = [("sync-adds", Config(levels=2, ndisks=2), base + adds, ("sync",)),
           ("sync-full", Config(levels=1, ndisks=2), base, ("sync", "-F")),
           ("scrub", Config(levels=2, ndisks=2), base + adds + [("cmd", "sync")], ("scrub", "-p", "full"))]
+    # scrub runs in which EVERY selected stripe is hit (no healthy stripe in the run): -p new after one small new file
+    scrubbed = base + [("cmd", "scrub", "-p", "full"), ("write", "d1", "late", 1000, 0), ("cmd", "sync")]
+    sc += [("scrub-new-only-failing", Config(levels=1, ndisks=2), scrubbed, ("scrub", "-p", "new")),
+           ("scrub-new-only-failing", Config(levels=2, ndisks=2), scrubbed, ("scrub", "-p", "new"))]
     if True:
         sc += [("sync-adds", Config(levels=3, ndisks=3), base + [("write", "d3", "anchor", 700, 0)] + adds, ("sync",)),
                ("scrub", Config(levels=1, ndisks=2), base + adds + [("cmd", "sync")], ("scrub", "-p", "full"))]
